@@ -250,6 +250,10 @@ if mode != "raw":
     if mode == "root":
         rt.ensure_running()
         fd = rt._resource_tracker._fd
+        if len(sys.argv) > 4 and sys.argv[4] != "-":  # a signal reaching the tracker while it is starting up
+            import signal, time
+            time.sleep(float(sys.argv[5]))
+            os.kill(rt._resource_tracker._pid, getattr(signal, sys.argv[4]))
         sys.stdout.write("pid %d %d\n" % (rt._resource_tracker._pid, fd)); sys.stdout.flush()
     else:
         rt._resource_tracker._fd = fd
@@ -282,7 +286,7 @@ class TrackerGone(Exception):
 
 
 class Client:
-    def __init__(self, mode, fd, repo, tracker_pid, errfile):
+    def __init__(self, mode, fd, repo, tracker_pid, errfile, start_sig=None, start_delay=0.0):
         self.mode = mode
         env = dict(os.environ, PYTHONPATH=repo, PYTHONDONTWRITEBYTECODE="1")
         if mode == "raw":
@@ -290,7 +294,7 @@ class Client:
         elif mode == "api":
             args = [PY, "-c", AGENT, str(fd), "api", repo, str(tracker_pid)]
         else:
-            args = [PY, "-c", AGENT, "-1", "root", repo]
+            args = [PY, "-c", AGENT, "-1", "root", repo, start_sig or "-", repr(float(start_delay))]
         self.p = subprocess.Popen(
             args, stdin=subprocess.PIPE, stdout=subprocess.PIPE, stderr=errfile, bufsize=0, env=env,
             pass_fds=[fd] if fd >= 0 else [],
@@ -325,8 +329,8 @@ class Client:
         if not self.alive:
             return
         self.alive = False
-        if how == "kill":
-            self.p.send_signal(signal.SIGKILL)
+        if how in LEAVE_SIG:
+            self.p.send_signal(LEAVE_SIG[how])
         else:
             try:
                 self.p.stdin.write(b"X\n")
@@ -352,6 +356,12 @@ def _pid_gone(pid):
     except OSError:
         return True
     return st.rsplit(")", 1)[1].split()[0] in ("Z", "X")
+
+
+# how a client process can be made to leave without saying good-bye ("killall python", ^C to the process group, kill -9)
+LEAVE_SIG = {"kill": signal.SIGKILL, "term": signal.SIGTERM, "int": signal.SIGINT}
+# the signals the tracker must shrug off at every moment of its life (resource_tracker._IGNORED_SIGNALS)
+TRACKER_SIGS = ["SIGTERM", "SIGINT"]
 
 
 # --------------------------------------------------------------------------------------- running one world
@@ -406,15 +416,25 @@ class World:
             cmd = [PY, "-c", f"from joblib.externals.loky.backend.resource_tracker import main; main({r}, False)"]
             if self.spec.get("strace"):
                 cmd = ["strace", "-f", "-qq", "-o", str(self.tracepath), "-e", "trace=unlink,unlinkat,rmdir"] + cmd
-            self.trk = subprocess.Popen(cmd, pass_fds=[r], stdin=subprocess.DEVNULL, stdout=subprocess.DEVNULL,
-                                        stderr=self.errf, env=env)
+            # what `ensure_running` does around the spawn (bpo-33613): SIGINT/SIGTERM are blocked in the spawning thread, the
+            # child inherits the mask, so that a signal arriving while the tracker starts stays pending until main() ignores it
+            old = signal.pthread_sigmask(signal.SIG_BLOCK, {signal.SIGINT, signal.SIGTERM})
+            try:
+                self.trk = subprocess.Popen(cmd, pass_fds=[r], stdin=subprocess.DEVNULL, stdout=subprocess.DEVNULL,
+                                            stderr=self.errf, env=env)
+            finally:
+                signal.pthread_sigmask(signal.SIG_SETMASK, old)
             os.close(r)
             self.w = w
             self.trk_pid = self.trk.pid
+            if self.spec.get("start_sig") and not self.spec.get("strace"):
+                time.sleep(self.spec.get("start_delay", 0.0))
+                os.kill(self.trk_pid, getattr(signal, self.spec["start_sig"]))
             for m in modes:
                 self.clients.append(Client(m, self.w, self.repo, self.trk_pid, self.cerrf))
         else:
-            root = Client("root", -1, self.repo, None, self.errf)  # the tracker inherits the root client's stderr
+            root = Client("root", -1, self.repo, None, self.errf,  # the tracker inherits the root client's stderr
+                          start_sig=self.spec.get("start_sig"), start_delay=self.spec.get("start_delay", 0.0))
             t = root.readline(120).split()
             if t[0] != "pid":
                 raise core.InfraError(f"root client said {t}")
@@ -463,7 +483,12 @@ class World:
         self.write(who, data, [("REGISTER", "file", s), ("MAYBE_UNLINK", "file", s)])
         t_end = time.time() + timeout
         delay = 0.0005
+        t_look = time.time() + 0.3
         while os.path.exists(s):
+            if time.time() > t_look:
+                t_look = time.time() + 0.3
+                if not self.tracker_alive() and os.path.exists(s):
+                    t_end = 0
             if time.time() > t_end:
                 if not self.tracker_alive():
                     self.problems.append(("tracker:died", f"tracker gone before EOF (sync {self.nsync})"))
@@ -480,6 +505,17 @@ class World:
             return False
         self.tl.append(("check", label, self.lay.observe(), self.tracker_alive()))
         return True
+
+    def signal_tracker(self, name):
+        """Only while the pid is certainly the tracker's: our own child (direct), or the child of the living root client (api)."""
+        if self.spec.get("strace"):
+            return
+        if self.trk is None and not (self.clients and self.clients[0].alive):
+            return
+        try:
+            os.kill(self.trk_pid, getattr(signal, name))
+        except ProcessLookupError:
+            pass
 
     # -- the history
     def run(self):
@@ -531,6 +567,8 @@ class World:
             self.clients.append(Client(ev["mode"], self.w, self.repo, self.trk_pid, self.cerrf))
         elif op == "check":
             return self.check(ev.get("label", "mid"))
+        elif op == "sig":  # SIGINT / SIGTERM reach the tracker while it serves requests: no effect expected
+            self.signal_tracker(ev["sig"])
         elif op in ("recreate", "selfdelete"):
             if not self.sync():
                 return False
@@ -569,7 +607,11 @@ class World:
             if not last:
                 if not self.check("client-left"):
                     return
-        # EOF: the tracker must clean up and exit
+        # EOF: the tracker must clean up and exit — also when signals keep arriving while it does
+        if self.trk is not None:
+            for name in end.get("sigs", []):
+                self.signal_tracker(name)
+                time.sleep(0.0003)
         t_end = time.time() + EXIT_S
         while self.tracker_alive() and time.time() < t_end:
             time.sleep(0.002)
@@ -925,11 +967,16 @@ def judge_world(w, replies, tags, res, swallow, idx):
     for ev in spec["events"]:
         res.count("ev:" + ev["op"] + (":" + ev["cmd"] if ev["op"] == "req" else "")
                   + (":" + ev["kind"] if ev["op"] == "raw" else "") + (":" + ev["how"] if ev["op"] == "leave" else "")
+                  + (":" + ev["sig"] if ev["op"] == "sig" else "")
                   + (":api" if ev.get("via") == "api" else ""))
     for _, how in spec["ending"]["order"]:
         res.count("ending:" + how)
     if spec["ending"].get("tail"):
         res.count("ending:unterminated-last-line")
+    if spec.get("start_sig") and not spec.get("strace"):
+        res.count("signal-pending-at-start:" + spec["start_sig"])
+    for name in spec["ending"].get("sigs", []):
+        res.count("signal-during-eof-cleanup:" + name)
     res.sample(dict(mode=spec["mode"], clients=spec["clients"], n_events=len(spec["events"]),
                     first_lines=[lay.canon(l.decode("latin-1")) for l in hist[:6]], ending=spec["ending"]), cap=4)
 
@@ -1096,6 +1143,36 @@ def gen_world(rng, mode, big=False, strace=False):
     return dict(mode=mode, clients=clients[:n0], events=events, ending=ending, strace=strace)
 
 
+def add_signals(rng, spec):
+    """SIGINT / SIGTERM at every phase of the tracker's life (drawn from a stream of its own, after the world is made):
+    pending from before main() — sent right after the spawn, while the launcher's blocked mask still protects the child —,
+    between requests of the command loop, while the EOF clean-up runs; and clients that are ended by SIGTERM / SIGINT
+    instead of SIGKILL.  The expected effect on the tracker is none: the model is not told about them."""
+    if spec.get("strace"):
+        return spec
+    api = spec["mode"] == "api"
+    if rng.random() < 0.14:
+        spec["start_sig"] = rng.choice(TRACKER_SIGS)
+        spec["start_delay"] = rng.choice([0.0, 0.0, 0.0, 0.01, 0.05])
+    if rng.random() < 0.25:
+        for _ in range(rng.choice([1, 1, 2, 4])):
+            spec["events"].insert(rng.randrange(len(spec["events"]) + 1), dict(op="sig", sig=rng.choice(TRACKER_SIGS)))
+    if not api and rng.random() < 0.2:
+        spec["ending"]["sigs"] = [rng.choice(TRACKER_SIGS) for _ in range(rng.choice([1, 2, 5]))]
+    if rng.random() < 0.3:
+        def how(h, who):
+            if h != "kill" or rng.random() < 0.5:
+                return h
+            return "term" if (api and who == 0) else rng.choice(["term", "int"])  # the root's stderr is the tracker's
+        for ev in spec["events"]:
+            if ev["op"] == "leave":
+                ev["how"] = how(ev["how"], ev["client"])
+            elif ev["op"] in ("split", "glue") and ev.get("leave"):
+                ev["leave"] = how(ev["leave"], ev["client"])
+        spec["ending"]["order"] = [(i, how(h, i)) for i, h in spec["ending"]["order"]]
+    return spec
+
+
 def _req(cmd, key, rtype=None, client="h", **kw):
     return dict(op="req", client=client, cmd=cmd, key=key, rtype=rtype or _natural(key), **kw)
 
@@ -1149,6 +1226,19 @@ def corpus_worlds():
         _req("MAYBE_UNLINK", "d1x", client=1, via="api"), CK, _req("MAYBE_UNLINK", "d1x", client=2), CK,
         _req("REGISTER", "fs", client=1, via="api"), _req("UNREGISTER", "fc", client=0, via="api"),
         _req("MAYBE_UNLINK", "nx", client=1, via="api"), CK]))
+    # "killall python" / ^C at every phase of the tracker's life: pending from before main() (sent right after the spawn), between
+    # requests, while the EOF clean-up runs; the clients end by the same signals; what is registered is deleted at the end
+    SG = lambda name: dict(op="sig", sig=name)  # noqa: E731
+    for first, second in (("SIGTERM", "SIGINT"), ("SIGINT", "SIGTERM")):
+        ws.append(dict(mode="direct", clients=["raw", "raw"], strace=False, start_sig=first, start_delay=0.0,
+                       ending=dict(order=[(0, "term"), (1, "int")], sigs=[first, second, first]), events=[
+            _req("REGISTER", "d0", client=0), _req("REGISTER", "d0x", client=1), _req("REGISTER", "f0", client=0), SG(second), CK,
+            _req("REGISTER", "f0", client=1), SG(first), _req("MAYBE_UNLINK", "f0", client=0), SG(second), CK,
+            _req("REGISTER", "d1", client=1), _req("REGISTER", "s0", client=1), SG(first), CK]))
+        ws.append(dict(mode="api", clients=["root", "api"], strace=False, start_sig=first, start_delay=0.0,
+                       ending=dict(order=[(1, "int"), (0, "term")]), events=[
+            _req("REGISTER", "d1", client=0, via="api"), _req("REGISTER", "d1x", client=1, via="api"), SG(second), CK,
+            _req("REGISTER", "fc", client=0, via="api"), _req("MAYBE_UNLINK", "fc", client=1, via="api"), SG(first), CK]))
     return ws
 
 
@@ -1343,7 +1433,8 @@ def _worlds(ctx, n_direct, n_api, n_strace, salt, big=False):
         ws.append(gen_world(rng, "direct", big=big, strace=(i < n_strace)))
     for _ in range(n_api):
         ws.append(gen_world(rng, "api", big=False))
-    return ws
+    rng_sig = ctx.rng(salt + "-signals")
+    return [add_signals(rng_sig, w) for w in ws]
 
 
 def _load_corpus():
